@@ -26,7 +26,8 @@ type Init struct {
 	Scale uint64 `json:"scale"` // reduced into [1,t-1]
 	Pat   string `json:"pat"`
 	Seed  uint64 `json:"seed"`
-	SK    bool   `json:"sk,omitempty"` // encrypt under the secret key instead of the public key
+	SK    bool   `json:"sk,omitempty"`   // encrypt under the secret key instead of the public key
+	Flip  bool   `json:"flip,omitempty"` // plaintext only: encoded in the OTHER domain than the program (IsBatched mismatch: documented error)
 }
 
 // Operand describes the second operand of a binary operation.
@@ -56,11 +57,16 @@ type Step struct {
 // ProgCase is a straight-line program over one parameter set.
 type ProgCase struct {
 	Params h.BGVSpec `json:"params"`
-	BFV    bool      `json:"bfv"`             // scale-invariant evaluator
-	NoRlk  bool      `json:"noRlk,omitempty"` // evaluator without relinearisation key
-	Seed   uint64    `json:"seed"`
-	Init   []Init    `json:"init"`
-	Steps  []Step    `json:"steps"`
+	BFV    bool      `json:"bfv"`              // scale-invariant evaluator
+	NoRlk  bool      `json:"noRlk,omitempty"`  // evaluator without relinearisation key
+	Coeffs bool      `json:"coeffs,omitempty"` // coefficient-domain program: every plaintext / ciphertext has IsBatched = false
+	// relinearisation key parameters: RlkLevelP = k > 0 uses #P-1-(k mod #P) auxiliary primes (only with >= 2 P);
+	// RlkBase2 = w > 0 asks for base-2^w digits (honoured by lattigo only when the key has at most one P)
+	RlkLevelP int    `json:"rlkLevelP,omitempty"`
+	RlkBase2  int    `json:"rlkBase2,omitempty"`
+	Seed      uint64 `json:"seed"`
+	Init      []Init `json:"init"`
+	Steps     []Step `json:"steps"`
 }
 
 func (c ProgCase) RandSeed() uint64 { return c.Seed }
@@ -141,16 +147,23 @@ func genPlainModulus(t *rapid.T, logn, tbits int, q0 uint64, used map[uint64]boo
 
 func genParams(t *rapid.T) h.BGVSpec {
 	var s h.BGVSpec
-	maxLogN := 7
 	if h.Thorough() {
-		maxLogN = 8
+		// log2 N up to 10, the large rings less often (cost)
+		s.LogN = []int{4, 5, 6, 7, 4, 5, 6, 7, 5, 6, 8, 8, 9, 10}[rapid.IntRange(0, 13).Draw(t, "logN")]
+	} else {
+		s.LogN = rapid.IntRange(4, 7).Draw(t, "logN")
 	}
-	s.LogN = rapid.IntRange(4, maxLogN).Draw(t, "logN")
 	s.NTT = true
 	s.Xs, s.Xe = h.DefaultXs, h.DefaultXe
+	if rapid.IntRange(0, 3).Draw(t, "distk") == 3 {
+		// non-default secret / error distributions (ternary with other densities or fixed Hamming weight, Gaussian
+		// secret; narrow / wide Gaussian or ternary error); the noise model takes its constants from them
+		s.Xs = h.GenDist(t, true, 1<<s.LogN, "xs")
+		s.Xe = h.GenDist(t, false, 1<<s.LogN, "xe")
+	}
 	m := uint64(2) << s.LogN
 	nQ := rapid.IntRange(1, 5).Draw(t, "nQ")
-	nP := rapid.IntRange(1, 2).Draw(t, "nP")
+	nP := []int{1, 1, 1, 2, 2, 0}[rapid.IntRange(0, 5).Draw(t, "nP")] // 0: no auxiliary modulus at all
 	used := map[uint64]bool{}
 	qs := h.GenSizes(t, nQ, 30, 60, "q")
 	s.Q = h.GenPrimes(t, qs, m, used, "q")
@@ -170,7 +183,9 @@ func genParams(t *rapid.T) h.BGVSpec {
 		}
 		ps = h.GenSizes(t, nP, lo, 61, "p")
 	}
-	s.P = h.GenPrimes(t, ps, m, used, "p")
+	if nP > 0 {
+		s.P = h.GenPrimes(t, ps, m, used, "p")
+	}
 
 	// plaintext modulus
 	logn := s.LogN
@@ -302,6 +317,13 @@ func genProg(t *rapid.T) ProgCase {
 	c.BFV = rapid.IntRange(0, 2).Draw(t, "mode") == 2
 	c.NoRlk = rapid.IntRange(0, 11).Draw(t, "norlk") == 11
 	c.Seed = rapid.Uint64().Draw(t, "seed")
+	c.Coeffs = rapid.IntRange(0, 4).Draw(t, "coeffs") == 4
+	if rapid.IntRange(0, 3).Draw(t, "rlkLevelP") == 3 {
+		c.RlkLevelP = 1
+	}
+	if rapid.IntRange(0, 4).Draw(t, "rlkBase2k") == 4 {
+		c.RlkBase2 = rapid.IntRange(6, 30).Draw(t, "rlkBase2")
+	}
 	tmod := c.Params.T
 
 	nct := rapid.IntRange(2, 4).Draw(t, "nct")
@@ -319,6 +341,9 @@ func genProg(t *rapid.T) ProgCase {
 		in.Pat = slotPatterns[rapid.IntRange(0, len(slotPatterns)-1).Draw(t, l+"_pat")]
 		in.Seed = rapid.Uint64().Draw(t, l+"_seed")
 		in.SK = rapid.IntRange(0, 3).Draw(t, l+"_sk") == 3
+		if in.Pt {
+			in.Flip = rapid.IntRange(0, 11).Draw(t, l+"_flip") == 11
+		}
 		c.Init = append(c.Init, in)
 	}
 
